@@ -74,6 +74,10 @@ def configs(tier):
                         out.append(c)
     for op in ("sum", "mean"):
         out.append(dict(kind="wrapper", N=2, res=1, lim="explicit", op=op, logx=False, warm=True))
+    # the automatic range is taken over the points with FINITE coordinates: the helpers histogram2d calls for it, on arrays
+    # holding symbolic finite values next to inf / -inf / nan
+    for pat in ("inf", "-inf", "nan", "inf+-inf+nan"):
+        out.append(dict(kind="finite-range", pat=pat))
     out.append(dict(kind="wrapper", N=1, res=2, lim="degenerate", op="default", logx=False))
     out.append(dict(kind="wrapper", N=2, res=2, lim="degenerate", op="sum", logx=False))
     out.append(dict(kind="interference", _noshadow=True))     # its concrete mode is a stress run, not a path replay
@@ -124,7 +128,34 @@ def body(m, cfg):
         return _kernel(m, cfg)
     if kind == "wrapper":
         return _wrapper(m, cfg)
+    if kind == "finite-range":
+        return _finite_range(m, cfg)
     return _interference(m, cfg)
+
+
+def _finite_range(m, cfg):
+    from symx import install
+    from symx.arr import sarray
+    H2 = install.mod("osyris.plot.histogram2d")
+    special = {"inf": [float("inf")], "-inf": [float("-inf")], "nan": [float("nan")],
+               "inf+-inf+nan": [float("inf"), float("-inf"), float("nan")]}[cfg["pat"]]
+    a, b = m.real("p0"), m.real("p1")
+    if m.symbolic:
+        x = sarray([a] + special[:1] + [b] + special[1:], "float64")
+    else:
+        x = np.array([a] + special[:1] + [b] + special[1:], dtype=float)
+    lo, hi = H2.finmin(x), H2.finmax(x)
+    A, Bt = m.t(a), m.t(b)
+    tag = f"finite-range:{cfg['pat']}"
+    from symx import core as _core
+    for nm, v in (("min", lo), ("max", hi)):
+        if not _core.is_sym(v) and not np.isfinite(float(v)):
+            m.fail(f"the automatic {nm} is not finite although finite points exist", key=f"auto-{nm}:{tag}", info=str(v))
+            return
+    m.check("the lower end of the automatic range is the smallest FINITE coordinate",
+            m.And(m.close(m.t(lo), _ite(m, A < Bt, A, Bt), exact=True)), key=f"auto-min:{tag}")
+    m.check("the upper end of the automatic range is the largest FINITE coordinate",
+            m.And(m.close(m.t(hi), _ite(m, A > Bt, A, Bt), exact=True)), key=f"auto-max:{tag}")
 
 
 def _kernel(m, cfg):
